@@ -603,6 +603,28 @@ def build_requests(ids, key, mount):
     return [{'tag': t, 'verb': v, 'url': u, 'body': b, 'ctype': c} for (t, v, u, b, c) in R[key]]
 
 
+def generic_requests(ids, m, mount):
+    """Requests for an exposed method this suite has no hand-written request for (a method added to
+    the code): verb from the REST method name, URL from the mount point with the seeded row's identifier."""
+    seg_id = {'tasks': ids['task_ex'], 'executions': ids['wf_ex'], 'workflows': ids['wf'], 'workbooks': 'c16_wb',
+              'actions': 'c16_act', 'code_sources': 'c16_cs', 'dynamic_actions': 'c16_da', 'cron_triggers': 'c16_ct',
+              'environments': 'c16_env', 'event_triggers': ids['et'], 'action_executions': ids['ad_hoc_action_ex'],
+              'members': 'other-project'}
+    parts, last = [], ''
+    for sgm in mount:
+        parts.append(seg_id.get(last, ABSENT) if sgm == '{}' else sgm)
+        last = sgm if sgm != '{}' else last
+    url = '/' + '/'.join(parts)
+    verb = m['verb'] if m['verb'] != 'ROUTE' else 'GET'
+    item = m['name'] in ('get', 'get_one', 'put', 'delete') and len(m['params']) >= (2 if verb == 'PUT' else 1)
+    out = []
+    for tag, ident in (('present', seg_id.get(last, ABSENT)), ('absent', ABSENT)) if item else (('collection', None),):
+        out.append({'tag': tag, 'verb': verb, 'url': url + ('/%s' % ident if ident else ''),
+                    'body': {} if verb in ('POST', 'PUT') else None, 'ctype': 'json' if verb in ('POST', 'PUT') else None,
+                    'synthesized': True})
+    return out
+
+
 def with_query(url, extra):
     return url + ('&' if '?' in url else '?') + extra
 
@@ -836,7 +858,7 @@ def suite_handle_and_oracle(ctx, app, table, live):
             reqs = build_requests(ids, key, mount)
             if reqs is None:
                 missing.append(key)
-                continue
+                reqs = generic_requests(ids, m, mount)
             for req in reqs:
                 req['conds'] = []
                 base = {'idx': idx, 'key': key, 'mount': mount, 'member': is_member, 'fe': fe, 'm': m}
@@ -864,7 +886,8 @@ def suite_handle_and_oracle(ctx, app, table, live):
                     cases.append(dict(base, req=req, policy='deny', denied=[rule], auth=False, pre=False))     # cond off, denied
     for k in sorted(set(missing)):
         ctx.obligation('correspondence:request-builder:%s' % k, False,
-                       'exposed method %s has no request builder in harness/suites/C16.py: the suite cannot exercise it' % k)
+                       'exposed method %s has no hand-written request in harness/suites/C16.py: exercised with a '
+                       'synthesized request only' % k)
     for k in sorted(live - {method_key(m) for m in methods}):
         ctx.obligation('correspondence:live-method-not-in-table:%s' % k, False, 'live exposed method missing from Gen/ApiTable.v')
     exprs = [model_class_expr(c['idx'], c['denied'], c['req'].get('conds', []), c['pre']) for c in cases]
@@ -952,7 +975,7 @@ def suite_default_policy_oracle(ctx, app, table):
         if key in UNGUARDED_ALLOWLIST:
             continue
         for mount in m['mounts']:
-            for req in build_requests(ids, key, mount) or []:
+            for req in build_requests(ids, key, mount) or generic_requests(ids, m, mount):
                 todo = []
                 if m['name'] == 'get_all':
                     todo.append(('all-projects', variant(req, 'CAllProjects')))
